@@ -368,6 +368,110 @@ theorem classify_spec (c : Content) (hs : c.surs = []) : ∀ (o st0 dy0 apn0 : L
           | true => exact absurd (by simpa [List.all_eq_true] using hb) hall
         exact dyn_case (by simp [classify, hr, hsur, hkv, hkp, hd, hall]) (Or.inr ⟨d, hd, hall⟩)
 
+/-- `classify` when the order may also contain names of (initial-assignment) variables: those are static and
+    do not enter the parameter-name set -/
+theorem classify_specV (c : Content) (hs : c.surs = []) : ∀ (o st0 dy0 apn0 : List Name),
+    o.Nodup →
+    (∀ k ∈ o, k ∉ apn0 ∧ k ∉ omKeys c.pars) →
+    (∀ k ∈ o, k ∈ omKeys c.vars → k ∉ omKeys c.rxns) →
+    (∀ k ∈ o, k ∈ omKeys c.rxns ∨ k ∈ omKeys c.vars ∨ ∃ d, c.derived.lookup k = some d) →
+    ∃ apn', classify c o st0 dy0 apn0
+        = (st0.reverse ++ o.filter (fun k => (omKeys c.vars).contains k || apn'.contains k),
+           dy0.reverse ++ o.filter (fun k => !((omKeys c.vars).contains k || apn'.contains k)), apn')
+      ∧ (∀ a, a ∈ apn0 → a ∈ apn')
+      ∧ (∀ a, a ∈ apn' → a ∈ apn0 ∨ (a ∈ o ∧ a ∉ omKeys c.vars))
+      ∧ (∀ k ∈ o, k ∈ apn' → k ∉ omKeys c.rxns ∧ k ∉ omKeys c.vars ∧
+            ∃ d, c.derived.lookup k = some d ∧ ∀ a ∈ d.args, a ∈ apn') := by
+  intro o; induction o with
+  | nil =>
+    intro st0 dy0 apn0 _ _ _ _
+    exact ⟨apn0, by simp [classify], fun a h => h, fun a h => Or.inl h, fun k hk => by cases hk⟩
+  | cons k ks ih =>
+    intro st0 dy0 apn0 hnd hdis hvr hkind
+    simp only [List.nodup_cons] at hnd
+    have hdis' : ∀ k' ∈ ks, k' ∉ apn0 ∧ k' ∉ omKeys c.pars :=
+      fun k' hk' => hdis k' (List.mem_cons_of_mem _ hk')
+    have hvr' : ∀ k' ∈ ks, k' ∈ omKeys c.vars → k' ∉ omKeys c.rxns :=
+      fun k' hk' => hvr k' (List.mem_cons_of_mem _ hk')
+    have hkind' : ∀ k' ∈ ks, k' ∈ omKeys c.rxns ∨ k' ∈ omKeys c.vars ∨ ∃ d, c.derived.lookup k' = some d :=
+      fun k' hk' => hkind k' (List.mem_cons_of_mem _ hk')
+    obtain ⟨hk0, hkp⟩ := hdis k List.mem_cons_self
+    have hsur : k ∉ omKeys c.surs := by simp [hs, omKeys]
+    -- outcomes that leave apn unchanged: dynamic (flag false) or static variable (flag true)
+    have same_apn : ∀ (isVar : Bool), (isVar = true ↔ k ∈ omKeys c.vars) →
+        classify c (k :: ks) st0 dy0 apn0 =
+          (if isVar then classify c ks (k :: st0) dy0 apn0 else classify c ks st0 (k :: dy0) apn0) →
+        ∃ apn', classify c (k :: ks) st0 dy0 apn0
+          = (st0.reverse ++ (k :: ks).filter (fun k => (omKeys c.vars).contains k || apn'.contains k),
+             dy0.reverse ++ (k :: ks).filter (fun k => !((omKeys c.vars).contains k || apn'.contains k)), apn')
+        ∧ (∀ a, a ∈ apn0 → a ∈ apn')
+        ∧ (∀ a, a ∈ apn' → a ∈ apn0 ∨ (a ∈ k :: ks ∧ a ∉ omKeys c.vars))
+        ∧ (∀ k' ∈ k :: ks, k' ∈ apn' → k' ∉ omKeys c.rxns ∧ k' ∉ omKeys c.vars ∧
+              ∃ d, c.derived.lookup k' = some d ∧ ∀ a ∈ d.args, a ∈ apn') := by
+      intro isVar hiv heq
+      cases isVar with
+      | true =>
+        have hkv : k ∈ omKeys c.vars := hiv.mp rfl
+        simp only [if_true] at heq
+        obtain ⟨apn', h1, h2, h3, h4⟩ := ih (k :: st0) dy0 apn0 hnd.2 hdis' hvr' hkind'
+        have hk' : k ∉ apn' := by
+          intro hm; rcases h3 k hm with h | h
+          · exact hk0 h
+          · exact hnd.1 h.1
+        refine ⟨apn', ?_, h2, fun a ha => (h3 a ha).imp id (fun h => ⟨List.mem_cons_of_mem _ h.1, h.2⟩), ?_⟩
+        · rw [heq, h1]; simp [List.filter_cons, hkv]
+        · intro k' hk'mem hk'apn
+          cases List.mem_cons.mp hk'mem with
+          | inl h => subst h; exact absurd hk'apn hk'
+          | inr h => exact h4 k' h hk'apn
+      | false =>
+        have hkv : k ∉ omKeys c.vars := fun h => by have := hiv.mpr h; cases this
+        simp only [Bool.false_eq_true, if_false] at heq
+        obtain ⟨apn', h1, h2, h3, h4⟩ := ih st0 (k :: dy0) apn0 hnd.2 hdis' hvr' hkind'
+        have hk' : k ∉ apn' := by
+          intro hm; rcases h3 k hm with h | h
+          · exact hk0 h
+          · exact hnd.1 h.1
+        refine ⟨apn', ?_, h2, fun a ha => (h3 a ha).imp id (fun h => ⟨List.mem_cons_of_mem _ h.1, h.2⟩), ?_⟩
+        · rw [heq, h1]; simp [List.filter_cons, hkv, hk']
+        · intro k' hk'mem hk'apn
+          cases List.mem_cons.mp hk'mem with
+          | inl h => subst h; exact absurd hk'apn hk'
+          | inr h => exact h4 k' h hk'apn
+    by_cases hr : k ∈ omKeys c.rxns
+    · have hnv : k ∉ omKeys c.vars := fun hv => hvr k List.mem_cons_self hv hr
+      exact same_apn false ⟨fun h => (by cases h), fun h => absurd h hnv⟩ (by simp [classify, hr])
+    · by_cases hv : k ∈ omKeys c.vars
+      · exact same_apn true ⟨fun _ => hv, fun _ => rfl⟩ (by simp [classify, hr, hsur, hv])
+      · obtain ⟨d, hd⟩ := ((hkind k List.mem_cons_self).resolve_left hr).resolve_left hv
+        by_cases hall : ∀ a ∈ d.args, a ∈ apn0
+        · have heq : classify c (k :: ks) st0 dy0 apn0 = classify c ks (k :: st0) dy0 (k :: apn0) := by
+            simp [classify, hr, hsur, hv, hkp, hd]
+            intro x hx hnx; exact absurd (hall x hx) hnx
+          obtain ⟨apn', h1, h2, h3, h4⟩ := ih (k :: st0) dy0 (k :: apn0) hnd.2
+            (fun k' hk' => ⟨by
+                intro hm
+                cases List.mem_cons.mp hm with
+                | inl h => exact hnd.1 (h ▸ hk')
+                | inr h => exact (hdis' k' hk').1 h, (hdis' k' hk').2⟩) hvr' hkind'
+          have hkin : k ∈ apn' := h2 k List.mem_cons_self
+          refine ⟨apn', ?_, fun a ha => h2 a (List.mem_cons_of_mem _ ha), ?_, ?_⟩
+          · rw [heq, h1]; simp [List.filter_cons, hkin]
+          · intro a ha
+            rcases h3 a ha with h | h
+            · cases List.mem_cons.mp h with
+              | inl h' => exact Or.inr ⟨h' ▸ List.mem_cons_self, h' ▸ hv⟩
+              | inr h' => exact Or.inl h'
+            · exact Or.inr ⟨List.mem_cons_of_mem _ h.1, h.2⟩
+          · intro k' hk'mem hk'apn
+            cases List.mem_cons.mp hk'mem with
+            | inl h =>
+              subst h
+              exact ⟨hr, hv, d, hd, fun a ha => h2 a (List.mem_cons_of_mem _ (hall a ha))⟩
+            | inr h => exact h4 k' h hk'apn
+        · exact same_apn false ⟨fun h => (by cases h), fun h => absurd h hv⟩
+            (by simp [classify, hr, hsur, hv, hkp, hd, hall])
+
 /-! ### what a successful `createCache` consists of -/
 
 theorem bind_ok {α β} {x : Except Err α} {f : α → Except Err β} {b : β}
